@@ -741,6 +741,7 @@ func (c *Check) fixedC13() []*plan.Plan {
 	probes := append(append(append(gen.TagProbeDocs(), gen.DegenerateDocs(24)...), gen.WrappedPagerDocs()...), gen.TableShapePages()...)
 	probes = append(probes, gen.CaseTwinDocs()...)
 	probes = append(probes, gen.AttrValueTruncationDocs()...)
+	probes = append(probes, gen.OGPrefixDocs()...)
 	for di, d := range probes {
 		c.noteDoc(d)
 		out = append(out, c.c13Variant(run, uint64(5000+di), d, d.URL, uint(di%2), di%5 == 4, 31, []string{"null", "file"}[di%2], nil, "Apply"))
@@ -1152,6 +1153,7 @@ func (c *Check) probePlans(run *int) []*plan.Plan {
 	docs = append(docs, gen.TableShapePages()...)
 	docs = append(docs, gen.CaseTwinDocs()...)
 	docs = append(docs, gen.AttrValueTruncationDocs()...)
+	docs = append(docs, gen.OGPrefixDocs()...)
 	for di := 0; di < len(docs); di += 3 {
 		p := c.newPlan("probes", *run, uint64(di), c.kernelName())
 		*run++
@@ -1360,6 +1362,7 @@ func (c *Check) fixedC12() []*plan.Plan {
 		probes := append(append(append(append(gen.AttrProbeDocs(), gen.TagProbeDocs()...), gen.DegenerateDocs(24)...), gen.WrappedPagerDocs()...), gen.TableShapePages()...)
 		probes = append(probes, gen.CaseTwinDocs()...)
 		probes = append(probes, gen.AttrValueTruncationDocs()...)
+		probes = append(probes, gen.OGPrefixDocs()...)
 		per := 40
 		if c.tier == "thorough" {
 			per = 12
